@@ -14,7 +14,7 @@ ASSUMPTIONS = [
     "permitted normalisations: required option without default acquires the zero value; Optional <-> not required (a None default "
     "is carried by optionality)",
 ]
-EXPR = ["p1_int_code", "p1_optint_d", "p1_optbool_f", "p1_optfloat_z", "p2_d_then_optd", "p1_int", "p1_int_d", "p1_str_s", "p1_bool_b", "p1_float", "p1_optint_none", "p1_optstr_s", "p1_list", "p1_literal",
+EXPR = ["p1_ret_none", "p1_int_code", "p1_optint_d", "p1_optbool_f", "p1_optfloat_z", "p2_d_then_optd", "p1_int", "p1_int_d", "p1_str_s", "p1_bool_b", "p1_float", "p1_optint_none", "p1_optstr_s", "p1_list", "p1_literal",
         "p2_d_then_plain", "p2_plain_then_d", "p2_both_d", "p1_ret", "p1_ret_d", "p1_kwargs", "p0", "p3_mixed", "sum2"]
 
 
